@@ -59,13 +59,13 @@ def _worker(widx, work, init, taskq, resq, cur, mem_limit):
                 res = work(payload, skip, report)
             cur[base] = -1
             resq.put(("ok", widx, chunk_id, res))
-        except Bail:
+        except Bail as bail:
             # three cases of this chunk never came back: the hangs are recorded (the work function reports each skipped
             # index as a violation); the rest of the chunk is not executed so that a non-termination bug costs seconds
             from .runner import Acc
             res = Acc.current
             if res is not None:
-                res.count("chunks_abandoned_after_%d_hangs" % MAX_HANGS)
+                res.count(bail.reason or "chunks_abandoned_after_%d_hangs" % MAX_HANGS)
             cur[base] = -1
             resq.put(("ok", widx, chunk_id, res))
         except BaseException:
@@ -77,7 +77,11 @@ MAX_HANGS = 3
 
 
 class Bail(BaseException):
-    pass
+    """Raised inside a work function to give up the rest of its chunk (what was found so far is kept)."""
+
+    def __init__(self, reason=None):
+        super().__init__(reason)
+        self.reason = reason
 
 
 def _hang_acc(payload, idx, case_timeout):
